@@ -1,12 +1,15 @@
 package main
 
 import (
+	"bytes"
 	"context"
 	"fmt"
 	"net/http"
+	"net/http/httptest"
 	"strconv"
 	"strings"
 	"sync"
+	"time"
 
 	"github.com/apache/arrow-go/v18/arrow"
 
@@ -17,13 +20,19 @@ import (
 //
 // A case is a call HISTORY against one server with a scripted DispatchHook installed (and, for
 // the transparency oracle, the same history against an identical server without a hook):
-//   hist <producerBatchLimit>
+//   hist <producerBatchLimit> <cfg>     cfg = plain | wirecap (max_response_bytes=1) | extcap (external storage,
+//                                       threshold 1, max_externalized_response_bytes=1) | sticky | pver (protocol version 1.2.0)
 //   P <mode> U <method> <lvl> <rid> <unary script>            pipe unary          (grammar: c04.go)
 //   P <mode> S <method> <lvl> <rid> <stream script> IN …      pipe stream         (grammar: c06.go)
 //   P <mode> X | P <mode> B                                   unknown method | parameters that do not deserialize
 //   H <mode> U … | H <mode> X | H <mode> B                    the same over HTTP
 //   H <mode> I <label> <enc:0|1> <method> <lvl> <stream script>   POST /<m>/init (enc=0: state type not gob-registered)
 //   H <mode> E <label> <variant> (d <val> | c)                    POST /<m>/exchange with the label's latest token
+//   P|H <mode> SU                       unary whose result cannot be serialized
+//   P|H <mode> VU, H <mode> VI          protocol-version mismatch (pver cases)
+//   H <mode> KU | KI | KE <label>       request carrying an unresolvable VGI-Session token (sticky cases)
+//   H <mode> BI                         stream init whose parameters do not deserialize
+// A stream script whose header token is BAD returns a header that cannot be serialized (HTTP only).
 // mode = what the hook does on this call: normal | nilctx | pstart (panic in start) | pend (panic in end).
 // Consecutive P lines share ONE pipe session. Observation per call: the hook's own event log
 // (S<tok>[!], E<tok|nil>:<err>[!]) and whether the response reports an error.
@@ -157,12 +166,41 @@ func (s *C37StateUE) Exchange(_ context.Context, in arrow.RecordBatch, out *vgir
 	return s.exchange(in, out)
 }
 
+// c37BadHeader declares a column its struct does not have: writeStreamHeader fails on it.
+type c37BadHeader struct {
+	N int64 `arrow:"n"`
+}
+
+func (c37BadHeader) ArrowSchema() *arrow.Schema {
+	return arrow.NewSchema([]arrow.Field{{Name: "n", Type: arrow.PrimitiveTypes.Int64}, {Name: "missing", Type: arrow.BinaryTypes.String}}, nil)
+}
+
+// c37BadSer announces an int64 result column but is a struct: serializeResult fails on it.
+type c37BadSer struct{ V string }
+
+func (c37BadSer) VgirpcArrowResult() arrow.DataType { return arrow.PrimitiveTypes.Int64 }
+
 func c37StreamInit(ctx context.Context, cc *vgirpc.CallContext, p famStreamParams) (*vgirpc.StreamResult, error) {
+	f := strings.Fields(p.Script)
+	badHeader := false
+	// `… ok <state> <hook> BAD <insch> …`: hand the family a script without header, add the bad one after
+	for i := 0; i+3 < len(f); i++ {
+		if f[i] == "ok" && f[i+3] == "BAD" && i >= 2 {
+			f[i+3] = "-"
+			badHeader = true
+			break
+		}
+	}
+	if badHeader {
+		p.Script = strings.Join(f, " ")
+	}
 	res, err := famStreamInit(ctx, cc, p)
 	if err != nil || res == nil {
 		return res, err
 	}
-	f := strings.Fields(p.Script)
+	if badHeader {
+		res.Header = c37BadHeader{N: 1}
+	}
 	if strings.HasSuffix(f[0], "!unreg") {
 		core := FamCore{Script: strings.Join(f[1:], " "), SID: f[0]}
 		if _, ok := res.State.(vgirpc.ProducerState); ok {
@@ -175,16 +213,42 @@ func c37StreamInit(ctx context.Context, cc *vgirpc.CallContext, p famStreamParam
 }
 
 type c37Side struct {
-	srv    *vgirpc.Server
-	http   *vgirpc.HttpServer
-	hook   *c37Hook
-	tokens map[string][2]string // label -> (stream state token, call state token)
-	method map[string]string
+	srv      *vgirpc.Server
+	http     *vgirpc.HttpServer
+	hook     *c37Hook
+	cfg      string
+	tokens   map[string][2]string // label -> (stream state token, call state token)
+	method   map[string]string
+	producer map[string]bool
 }
 
-func c37NewSide(withHook bool, limit int) *c37Side {
+type c37Storage struct{}
+
+func (c37Storage) Upload([]byte, *arrow.Schema, string) (string, error) {
+	return "https://verif.invalid/object", nil
+}
+
+const c37GoodVersion, c37BadVersion = "1.2.0", "9.9.9"
+
+// req builds a scripted request; on a version-gated server every request carries a version.
+func (s *c37Side) req(method, script, lvl, rid string, badVersion bool) []byte {
+	if s.cfg == "pver" {
+		v := c37GoodVersion
+		if badVersion {
+			v = c37BadVersion
+		}
+		return famRequest(method, script, lvl, rid, [2]string{vgirpc.MetaProtocolVersion, v})
+	}
+	return famRequest(method, script, lvl, rid)
+}
+
+func c37NewSide(withHook bool, limit int, cfg string) *c37Side {
 	s := vgirpc.NewServer()
 	s.SetServerID("verif-srv")
+	vgirpc.Unary(s, "u_badser", func(_ context.Context, cc *vgirpc.CallContext, p famUnaryParams) (c37BadSer, error) {
+		_, err := famRunUnary(cc, p.Script)
+		return c37BadSer{V: "x"}, err
+	})
 	famRegisterUnary(s)
 	famRegisterStreams(s) // registers the gob state types
 	vgirpc.Producer(s, "p_plain", famOutSchema, c37StreamInit)
@@ -192,13 +256,29 @@ func c37NewSide(withHook bool, limit int) *c37Side {
 	vgirpc.Exchange(s, "e_plain", famOutSchema, famInSchema, c37StreamInit)
 	vgirpc.ExchangeWithHeader(s, "e_hdr", famOutSchema, famInSchema, famHdrSchema, c37StreamInit)
 	vgirpc.DynamicStreamWithHeader(s, "d_hdr", famHdrSchema, c37StreamInit)
-	side := &c37Side{srv: s, tokens: map[string][2]string{}, method: map[string]string{}}
+	side := &c37Side{srv: s, cfg: cfg, tokens: map[string][2]string{}, method: map[string]string{}, producer: map[string]bool{}}
 	if withHook {
 		side.hook = &c37Hook{byRid: map[string]string{}}
 		s.SetDispatchHook(side.hook)
 	}
+	switch cfg {
+	case "pver":
+		s.SetProtocolVersion(c37GoodVersion)
+	case "extcap":
+		ec := vgirpc.DefaultExternalLocationConfig(c37Storage{})
+		ec.ExternalizeThresholdBytes = 1
+		s.SetExternalLocation(ec)
+	}
 	side.http = vgirpc.NewHttpServer(s)
 	side.http.SetProducerBatchLimit(limit)
+	switch cfg {
+	case "wirecap":
+		side.http.SetMaxResponseBytes(1)
+	case "extcap":
+		side.http.SetMaxExternalizedResponseBytes(1)
+	case "sticky":
+		side.http.EnableSticky(time.Minute)
+	}
 	return side
 }
 
@@ -216,7 +296,11 @@ func c37Gen(g *Gen) {
 	r := g.Rng
 	n := g.N(2000, 25000)
 	for i := 0; i < n; i++ {
-		lines := []string{"hist " + strconv.Itoa(r.Range(1, 3))}
+		cfg := Pick(r, []string{"plain", "plain", "plain", "plain", "plain", "plain", "wirecap", "extcap", "sticky", "pver"})
+		lines := []string{"hist " + strconv.Itoa(r.Range(1, 3)) + " " + cfg}
+		// external storage also changes pipe results and the wire cap makes producers soft-stop:
+		// those two configurations run HTTP calls only, the wire cap exchange-mode streams only
+		httpOnly := cfg == "wirecap" || cfg == "extcap"
 		type lab struct {
 			name     string
 			producer bool
@@ -227,27 +311,54 @@ func c37Gen(g *Gen) {
 		for k := 0; k < ncalls; k++ {
 			mode := Pick(r, c37Modes)
 			rid := "c" + strconv.Itoa(k)
-			switch x := r.Intn(100); {
-			case x < 18:
+			x := r.Intn(100)
+			if (cfg == "sticky" || cfg == "pver") && r.Chance(20) {
+				x = 46 // one of the configuration's own refusals
+			}
+			if httpOnly && x < 45 {
+				x = 45 + r.Intn(55)
+			}
+			switch {
+			case x < 16:
 				t := c37UnaryTokens(r)
 				lines = append(lines, strings.Join(append([]string{"P", mode, "U", t[0], t[1], XS(rid)}, t[2:]...), " "))
-			case x < 36:
+			case x < 33:
 				method := Pick(r, famStreamMethods)
 				s, producer := c06Script(r, method)
 				variant, in := c06Inputs(r, producer)
 				l := c06Line(method, famRandLevel(r), rid, s, variant, in)
 				lines = append(lines, "P "+mode+" S "+strings.TrimPrefix(l, "stream "))
-			case x < 40:
+			case x < 37:
 				lines = append(lines, Pick(r, []string{"P", "H"})+" "+mode+" X")
-			case x < 45:
+			case x < 41:
 				lines = append(lines, Pick(r, []string{"P", "H"})+" "+mode+" B")
-			case x < 60:
+			case x < 45:
+				lines = append(lines, Pick(r, []string{"P", "H"})+" "+mode+" SU")
+			case x < 49:
+				// refusals after the hook started (the sticky / version ones need their configuration)
+				switch {
+				case cfg == "sticky":
+					if len(labs) > 0 && r.Bool() {
+						lines = append(lines, "H "+mode+" KE "+Pick(r, labs).name)
+					} else {
+						lines = append(lines, "H "+mode+" "+Pick(r, []string{"KU", "KI"}))
+					}
+				case cfg == "pver":
+					lines = append(lines, Pick(r, []string{"H " + mode + " VU", "H " + mode + " VI", "P " + mode + " VU"}))
+				default:
+					lines = append(lines, "H "+mode+" "+Pick(r, []string{"BI", "SU", "B"}))
+				}
+			case x < 62:
 				t := c37UnaryTokens(r)
 				lines = append(lines, strings.Join(append([]string{"H", mode, "U", t[0], t[1], XS(rid)}, t[2:]...), " "))
-			case x < 72 || len(labs) == 0:
-				method := Pick(r, famStreamMethods)
+			case x < 74 || len(labs) == 0:
+				methods := famStreamMethods
+				if cfg == "wirecap" {
+					methods = []string{"e_plain", "e_hdr", "d_hdr"}
+				}
+				method := Pick(r, methods)
 				s, producer := c06Script(r, method)
-				if r.Chance(60) { // a stream that certainly gets under way: fitting state, clean first turns
+				if r.Chance(60) || cfg == "wirecap" { // a stream that certainly gets under way: fitting state, clean first turns
 					s.Init = famInit{Kind: "ok", Hook: Pick(r, []string{"absent", "ok", "panic"}), Header: s.Init.Header, InSch: "-"}
 					if s.Init.Header == "" {
 						s.Init.Header = "-"
@@ -258,7 +369,7 @@ func c37Gen(g *Gen) {
 					case strings.HasPrefix(method, "e_"):
 						s.Init.State, producer = "exch", false
 					default:
-						producer = r.Bool()
+						producer = r.Bool() && cfg != "wirecap"
 						s.Init.State = map[bool]string{true: "prod", false: "exch"}[producer]
 					}
 					if method == "d_hdr" && !producer {
@@ -272,6 +383,9 @@ func c37Gen(g *Gen) {
 					if len(s.Turns) < 3 && r.Chance(70) {
 						s.Rest = c06GoodTurn(r)
 					}
+				}
+				if s.Init.Kind == "ok" && method != "p_plain" && method != "e_plain" && r.Chance(6) {
+					s.Init.Header = "BAD" // a header that cannot be serialized
 				}
 				enc := "1"
 				if s.Init.Kind == "ok" && r.Chance(10) && (s.Init.State == "prod" || s.Init.State == "exch") {
@@ -290,10 +404,9 @@ func c37Gen(g *Gen) {
 				case lb.producer:
 					in = "empty d rows=0[]"
 				default:
-					variant := "exact"
-					if lb.method != "d_hdr" {
-						variant = Pick(r, []string{"exact", "exact", "exact", "exact", "nullable", "i32", "name", "f64"})
-					}
+					// static methods refuse an uncastable input BEFORE the hook starts, a dynamic
+					// stream (declared schema) AFTER it
+					variant := Pick(r, []string{"exact", "exact", "exact", "exact", "nullable", "i32", "name", "f64", "utf8", "two"})
 					in = variant + " d " + c06InputVal(r, variant)
 				}
 				lines = append(lines, "H "+mode+" E "+lb.name+" "+in)
@@ -340,7 +453,7 @@ func (s *c37Side) pipeSession(c *Case, rids []string, modes []string, inputs [][
 			s.hook.byRid[rids[i]] = modes[i]
 		}
 		all = append(all, inputs[i]...)
-		all = append(all, famRequest("u_i64", "0 ret "+c06ProbeVal, "", "probe-"+rids[i])...)
+		all = append(all, s.req("u_i64", "0 ret "+c06ProbeVal, "", "probe-"+rids[i], false)...)
 	}
 	out, p := famServePipe(s.srv, all)
 	if p != nil {
@@ -374,11 +487,24 @@ func (s *c37Side) pipeSession(c *Case, rids []string, modes []string, inputs [][
 	return resps
 }
 
-func (s *c37Side) httpCall(c *Case, mode, path string, body []byte) (c37Resp, []famStream) {
+func (s *c37Side) httpCall(c *Case, mode, path string, body []byte, lostSession ...bool) (c37Resp, []famStream) {
 	if s.hook != nil {
 		s.hook.cur = mode
 	}
-	rec, p := famHTTPPost(s.http, path, body)
+	var rec *httptest.ResponseRecorder
+	var p any
+	if len(lostSession) > 0 && lostSession[0] {
+		req := httptest.NewRequest(http.MethodPost, path, bytes.NewReader(body))
+		req.Header.Set("Content-Type", "application/vnd.apache.arrow.stream")
+		req.Header.Set("VGI-Session", "bm90LWEtc2Vzc2lvbi10b2tlbg") // does not open: session lost
+		rec = httptest.NewRecorder()
+		func() {
+			defer func() { p = recover() }()
+			s.http.ServeHTTP(rec, req)
+		}()
+	} else {
+		rec, p = famHTTPPost(s.http, path, body)
+	}
 	var r c37Resp
 	if p != nil {
 		c.Oracle("hook-panic-escaped-http", fmt.Sprintf("ServeHTTP %s panicked: %v", path, p))
@@ -411,11 +537,14 @@ func c37Tokens(streams []famStream) (state, call string) {
 	return
 }
 
-func c37BadParams(method, rid string) []byte {
+func c37BadParams(side *c37Side, method, rid string) []byte {
 	// a parameter batch whose schema is not the declared one: {script:int64}
 	schema := arrow.NewSchema([]arrow.Field{{Name: "script", Type: arrow.PrimitiveTypes.Int64}}, nil)
 	keys := []string{vgirpc.MetaMethod, vgirpc.MetaRequestVersion, vgirpc.MetaRequestID}
 	vals := []string{method, vgirpc.ProtocolVersion, rid}
+	if side.cfg == "pver" {
+		keys, vals = append(keys, vgirpc.MetaProtocolVersion), append(vals, c37GoodVersion)
+	}
 	var md [][2]string
 	for i := range keys {
 		md = append(md, [2]string{keys[i], vals[i]})
@@ -440,14 +569,19 @@ func c37Exec(c *Case) {
 		return
 	}
 	h := strings.Fields(c.Lines[0])
-	limit := 2
-	if len(h) == 2 && h[0] == "hist" {
+	limit, cfg := 2, "plain"
+	if len(h) == 3 && h[0] == "hist" {
 		if n, err := strconv.Atoi(h[1]); err == nil && n > 0 {
 			limit = n
 		}
+		switch h[2] {
+		case "plain", "wirecap", "extcap", "sticky", "pver":
+			cfg = h[2]
+		}
 	}
-	c.Out(c.Lines[0], "ok")
-	hooked, plain := c37NewSide(true, limit), c37NewSide(false, limit)
+	c.Out(fmt.Sprintf("hist %d %s", limit, cfg), "ok")
+	hooked, plain := c37NewSide(true, limit, cfg), c37NewSide(false, limit, cfg)
+	c.Stat("cfg-" + cfg)
 	var calls []c37Call
 	for i, l := range c.Lines[1:] {
 		f := strings.Fields(l)
@@ -527,9 +661,13 @@ func c37Exec(c *Case) {
 func c37PipeCall(side *c37Side, cl c37Call, rid string) (model string, input []byte, kind string, ok bool) {
 	switch cl.kind {
 	case "X":
-		return "P " + cl.mode + " X", famRequest("no_such_method", "x", "", rid), "pipe-unknown", true
+		return "P " + cl.mode + " X", side.req("no_such_method", "x", "", rid, false), "pipe-unknown", true
 	case "B":
-		return "P " + cl.mode + " B", c37BadParams("u_i64", rid), "pipe-badparams", true
+		return "P " + cl.mode + " B", c37BadParams(side, "u_i64", rid), "pipe-badparams", true
+	case "SU":
+		return "P " + cl.mode + " SU", side.req("u_badser", "0 ret i:1", "", rid, false), "pipe-serialization", true
+	case "VU":
+		return "P " + cl.mode + " VU", side.req("u_i64", "0 ret i:1", "", rid, true), "pipe-version", true
 	case "U":
 		if len(cl.rest) < 3 {
 			return "", nil, "", false
@@ -548,7 +686,7 @@ func c37PipeCall(side *c37Side, cl c37Call, rid string) (model string, input []b
 			void = "1"
 		}
 		model = strings.Join(append([]string{"P", cl.mode, "U", famSchemaCanon(info.ResultSchema), void, cl.rest[1], XS(rid)}, cl.rest[3:]...), " ")
-		return model, famRequest(method, strings.Join(cl.rest[3:], " "), string(lvl), rid), "pipe-unary", true
+		return model, side.req(method, strings.Join(cl.rest[3:], " "), string(lvl), rid, false), "pipe-unary", true
 	case "S":
 		sc, err := c06ParseLine("stream " + strings.Join(cl.rest, " "))
 		if err != nil {
@@ -569,7 +707,7 @@ func c37PipeCall(side *c37Side, cl c37Call, rid string) (model string, input []b
 				ml = append(ml, "d", b.Val, famLibCast(sc.variant, b.Val, famInSchema))
 			}
 		}
-		input = famRequest(sc.method, famNewSID()+" "+strings.Join(sc.scriptTokens, " "), sc.lvl, rid)
+		input = side.req(sc.method, famNewSID()+" "+strings.Join(sc.scriptTokens, " "), sc.lvl, rid, false)
 		instream, err := famInputStream(sc.variant, sc.in)
 		if err != nil {
 			return "", nil, "", false
@@ -593,18 +731,73 @@ func c37ScriptModelTokens(ts []string) []string {
 
 func c37HTTPCall(c *Case, hooked, plain *c37Side, cl c37Call, emit func(c37Call, string, c37Resp, c37Resp, string, bool)) {
 	rid := "c" + strconv.Itoa(cl.idx)
+	lost := false
 	both := func(path string, body func(s *c37Side) []byte) (c37Resp, c37Resp, []famStream, []famStream) {
-		hr, hs := hooked.httpCall(c, cl.mode, path, body(hooked))
-		pr, ps := plain.httpCall(c, cl.mode, path, body(plain))
+		hr, hs := hooked.httpCall(c, cl.mode, path, body(hooked), lost)
+		pr, ps := plain.httpCall(c, cl.mode, path, body(plain), lost)
 		return hr, pr, hs, ps
 	}
+	trivialStream := "INIT 0 ok exch absent - - TURNS 0 REST 1 echo p ok"
 	switch cl.kind {
 	case "X":
-		hr, pr, _, _ := both("/no_such_method", func(*c37Side) []byte { return famRequest("no_such_method", "x", "", rid) })
+		hr, pr, _, _ := both("/no_such_method", func(s *c37Side) []byte { return s.req("no_such_method", "x", "", rid, false) })
 		emit(cl, "H "+cl.mode+" X", hr, pr, "http-unknown", false)
 	case "B":
-		hr, pr, _, _ := both("/u_i64", func(*c37Side) []byte { return c37BadParams("u_i64", rid) })
+		hr, pr, _, _ := both("/u_i64", func(s *c37Side) []byte { return c37BadParams(s, "u_i64", rid) })
 		emit(cl, "H "+cl.mode+" B", hr, pr, "http-badparams", false)
+	case "BI":
+		hr, pr, _, _ := both("/p_plain/init", func(s *c37Side) []byte { return c37BadParams(s, "p_plain", rid) })
+		emit(cl, "H "+cl.mode+" BI", hr, pr, "http-init-badparams", false)
+	case "SU":
+		hr, pr, _, _ := both("/u_badser", func(s *c37Side) []byte { return s.req("u_badser", "0 ret i:1", "", rid, false) })
+		emit(cl, "H "+cl.mode+" SU", hr, pr, "http-serialization", false)
+	case "VU":
+		hr, pr, _, _ := both("/u_i64", func(s *c37Side) []byte { return s.req("u_i64", "0 ret i:1", "", rid, true) })
+		emit(cl, "H "+cl.mode+" VU", hr, pr, "http-version-unary", false)
+	case "VI":
+		hr, pr, _, _ := both("/e_plain/init", func(s *c37Side) []byte { return s.req("e_plain", famNewSID()+" "+trivialStream, "", rid, true) })
+		emit(cl, "H "+cl.mode+" VI", hr, pr, "http-version-init", false)
+	case "KU":
+		lost = true
+		hr, pr, _, _ := both("/u_i64", func(s *c37Side) []byte { return s.req("u_i64", "0 ret i:1", "", rid, false) })
+		emit(cl, "H "+cl.mode+" KU", hr, pr, "http-sticky-unary", false)
+	case "KI":
+		lost = true
+		hr, pr, _, _ := both("/e_plain/init", func(s *c37Side) []byte { return s.req("e_plain", famNewSID()+" "+trivialStream, "", rid, false) })
+		emit(cl, "H "+cl.mode+" KI", hr, pr, "http-sticky-init", false)
+	case "KE":
+		if len(cl.rest) != 1 {
+			c.Out(cl.line, "err:bad-script")
+			return
+		}
+		label := cl.rest[0]
+		model := "H " + cl.mode + " KE " + label
+		ht, okh := hooked.tokens[label]
+		pt, okp := plain.tokens[label]
+		if !okh || !okp {
+			c.Out(model, "no-token")
+			return
+		}
+		variant, val := "exact", "i:1"
+		if hooked.producer[label] {
+			variant, val = "empty", "rows=0[]"
+		}
+		body := func(tok [2]string) []byte {
+			md := [][2]string{{vgirpc.MetaStreamState, tok[0]}}
+			if tok[1] != "" {
+				md = append(md, [2]string{vgirpc.MetaCallState, tok[1]})
+			}
+			rec, err := famBuildBatch(famInVariants[variant], val, md)
+			if err != nil {
+				panic(err)
+			}
+			defer rec.Release()
+			return famIPC(famInVariants[variant], rec)
+		}
+		path := "/" + hooked.method[label] + "/exchange"
+		hr, _ := hooked.httpCall(c, cl.mode, path, body(ht), true)
+		pr, _ := plain.httpCall(c, cl.mode, path, body(pt), true)
+		emit(cl, model, hr, pr, "http-sticky-exchange", true)
 	case "U":
 		if len(cl.rest) < 3 {
 			c.Out(cl.line, "err:bad-script")
@@ -622,8 +815,8 @@ func c37HTTPCall(c *Case, hooked, plain *c37Side, cl c37Call, emit func(c37Call,
 			void = "1"
 		}
 		model := strings.Join(append([]string{"H", cl.mode, "U", famSchemaCanon(info.ResultSchema), void, cl.rest[1], XS(rid)}, cl.rest[3:]...), " ")
-		hr, pr, _, _ := both("/"+method, func(*c37Side) []byte {
-			return famRequest(method, strings.Join(cl.rest[3:], " "), string(lvl), rid)
+		hr, pr, _, _ := both("/"+method, func(s *c37Side) []byte {
+			return s.req(method, strings.Join(cl.rest[3:], " "), string(lvl), rid, false)
 		})
 		emit(cl, model, hr, pr, "http-unary", false)
 	case "I":
@@ -639,23 +832,24 @@ func c37HTTPCall(c *Case, hooked, plain *c37Side, cl c37Call, emit func(c37Call,
 			c.Out(cl.line, "err:bad-script")
 			return
 		}
-		_ = sc
 		ml := append([]string{"H", cl.mode, "I", label, enc}, c06MethodFacts(info)...)
 		ml = append(ml, cl.rest[3])
 		ml = append(ml, c37ScriptModelTokens(cl.rest[4:])...)
-		hr, pr, hs, ps := both("/"+method+"/init", func(*c37Side) []byte {
+		hr, pr, hs, ps := both("/"+method+"/init", func(s *c37Side) []byte {
 			sid := famNewSID()
 			if enc == "0" {
 				sid += "!unreg"
 			}
-			return famRequest(method, sid+" "+strings.Join(cl.rest[4:], " "), string(lvl), rid)
+			return s.req(method, sid+" "+strings.Join(cl.rest[4:], " "), string(lvl), rid, false)
 		})
+		isProd := info.Kind == "producer" || (info.Kind == "dynamic" && (sc.Init.State == "prod" || sc.Init.State == "both"))
 		for _, x := range []struct {
 			side *c37Side
 			st   []famStream
 		}{{hooked, hs}, {plain, ps}} {
 			st, call := c37Tokens(x.st)
 			x.side.method[label] = method
+			x.side.producer[label] = isProd
 			if st != "" {
 				x.side.tokens[label] = [2]string{st, call}
 			} else {
